@@ -89,3 +89,60 @@ Theorem gsequ_reports_amax_partial :
       (g_amax ar_R g = 0%R \/ exists e, In e (sm_ents ar_R A) /\ Rabs (e_val ar_R e) = g_amax ar_R g).
 Proof. exact gsequ_amax_true_proof. Qed.
 Print Assumptions gsequ_reports_amax_partial.
+
+From SLU Require Import EquilRoundedProofs.
+
+(* "equal to 1 UP TO ROUNDING": for every rounding function obeying the standard model (rnd x = x(1+d), |d| <= u; no
+   monotonicity assumed), unless clipped the computed row factor is (1/max)(1+d) and the largest magnitude of every row of the
+   ROUNDED scaled matrix lies in [(1-u)^2,(1+u)^2]; likewise the column factors and columns, with [(1-u)^3/(1+u),(1+u)^3/(1-u)]
+   for the operation order ?laqgs uses when both scalings are applied.  The no-clipping hypothesis is m <= rnd(1/sml) (the code
+   clips at the ROUNDED bignum): with m <= 1/sml the statement is false (gsequ_unit_max_rounded_full_refuted) *)
+Local Open Scope nat_scope.
+Theorem gsequ_unit_max_rounded :
+  forall (rnd : R -> R) (u : R),
+  rnd_model rnd u ->
+  forall (sml : R) (A : smatrix (ar_rnd rnd)) (r0 c0 : list R) (rc0 cc0 am0 : R) (g : gsequ_out (ar_rnd rnd)),
+  (0 < sml)%R ->
+  wf_rnd rnd A ->
+  0 < sm_nrow (ar_rnd rnd) A ->
+  0 < sm_ncol (ar_rnd rnd) A ->
+  gsequ (ar_rnd rnd) sml A r0 c0 rc0 cc0 am0 = Some g ->
+  g_info (ar_rnd rnd) g = 0%Z ->
+  (forall (i : nat) (m : R),
+   i < sm_nrow (ar_rnd rnd) A ->
+   largest_of (fun e : entry (ar_rnd rnd) => e_row (ar_rnd rnd) e = i)
+     (fun e : entry (ar_rnd rnd) => Rabs (e_val (ar_rnd rnd) e)) (sm_ents (ar_rnd rnd) A) m ->
+   (sml <= m <= rnd (1 / sml))%R ->
+   (exists d : R, (- u <= d <= u)%R /\ nth i (g_r (ar_rnd rnd) g) 0%R = (1 / m * (1 + d))%R) /\
+   (exists m' : R,
+      largest_of (fun e : entry (ar_rnd rnd) => e_row (ar_rnd rnd) e = i)
+        (fun e : entry (ar_rnd rnd) => Rabs (rnd (e_val (ar_rnd rnd) e * nth i (g_r (ar_rnd rnd) g) 0)%R))
+        (sm_ents (ar_rnd rnd) A) m' /\ ((1 - u) ^ 2 <= m' <= (1 + u) ^ 2)%R)) /\
+  (forall (j : nat) (m : R),
+   j < sm_ncol (ar_rnd rnd) A ->
+   largest_of (fun e : entry (ar_rnd rnd) => e_col (ar_rnd rnd) e = j)
+     (fun e : entry (ar_rnd rnd) =>
+      rnd (Rabs (e_val (ar_rnd rnd) e) * nth (e_row (ar_rnd rnd) e) (g_r (ar_rnd rnd) g) 0)%R)
+     (sm_ents (ar_rnd rnd) A) m ->
+   (sml <= m <= rnd (1 / sml))%R ->
+   (exists d : R, (- u <= d <= u)%R /\ nth j (g_c (ar_rnd rnd) g) 0%R = (1 / m * (1 + d))%R) /\
+   (exists m' : R,
+      largest_of (fun e : entry (ar_rnd rnd) => e_col (ar_rnd rnd) e = j)
+        (fun e : entry (ar_rnd rnd) =>
+         rnd
+           (rnd (Rabs (e_val (ar_rnd rnd) e) * nth (e_row (ar_rnd rnd) e) (g_r (ar_rnd rnd) g) 0) *
+            nth j (g_c (ar_rnd rnd) g) 0)%R) (sm_ents (ar_rnd rnd) A) m' /\ ((1 - u) ^ 2 <= m' <= (1 + u) ^ 2)%R) /\
+   (exists m' : R,
+      largest_of (fun e : entry (ar_rnd rnd) => e_col (ar_rnd rnd) e = j)
+        (fun e : entry (ar_rnd rnd) =>
+         Rabs
+           (rnd
+              (e_val (ar_rnd rnd) e *
+               rnd (nth j (g_c (ar_rnd rnd) g) 0 * nth (e_row (ar_rnd rnd) e) (g_r (ar_rnd rnd) g) 0))%R))
+        (sm_ents (ar_rnd rnd) A) m' /\ ((1 - u) ^ 3 / (1 + u) <= m' <= (1 + u) ^ 3 / (1 - u))%R)).
+Proof. exact (@EquilRoundedProofs.gsequ_unit_max_rounded). Qed.
+Print Assumptions gsequ_unit_max_rounded.
+
+Theorem gsequ_unit_max_rounded_full_refuted : ~ gsequ_unit_max_rounded_full.
+Proof. exact gsequ_unit_max_rounded_full_is_false. Qed.
+Print Assumptions gsequ_unit_max_rounded_full_refuted.
